@@ -60,7 +60,9 @@ func tenantScript(c *vcore.Ctx, dir string, tag int) []string {
 			sys(2, "s:"+p+"/inner", "0x41", "0600")
 			sys(90, "s:"+p, "0")
 		case "symlink":
-			sys(88, "s:/etc/passwd", "s:"+p)
+			// the target may dangle, stay inside the mount, or lead to another file system of the container
+			tgt := src.Pick("linktarget", "/etc/passwd", "/", "/probe", "/tmp", "/w", "/proc/self/status", "../tmp", ".", "/probe/"+"vprobe", "nowhere")
+			sys(88, "s:"+tgt, "s:"+p)
 		case "fifo":
 			sys(133, "s:"+p, "010644", "0")
 		case "socket":
@@ -169,12 +171,13 @@ func c13Reset(c *vcore.Ctx) *vcore.Violation {
 
 // faultyReader is the io.Reader seam of DupToMemfd: short reads, empty reads, an error after k bytes.
 type faultyReader struct {
-	data   []byte
-	off    int
-	chunks []int
-	i      int
-	failAt int // -1: never
-	c      *vcore.Ctx
+	data    []byte
+	off     int
+	chunks  []int
+	i       int
+	failAt  int // -1: never
+	c       *vcore.Ctx
+	dataEOF bool // the last chunk is returned together with io.EOF (allowed by io.Reader)
 }
 
 var errInjectedRead = errors.New("injected read error")
@@ -203,6 +206,10 @@ func (f *faultyReader) Read(p []byte) (int, error) {
 	}
 	copy(p, f.data[f.off:f.off+n])
 	f.off += n
+	if f.dataEOF && f.off >= len(f.data) && n > 0 {
+		f.c.Fault("data_with_eof")
+		return n, io.EOF
+	}
 	return n, nil
 }
 
@@ -224,7 +231,7 @@ func c13Memfd(c *vcore.Ctx) *vcore.Violation {
 			data[i] = byte(i)
 		}
 	}
-	fr := &faultyReader{data: data, failAt: -1, c: c}
+	fr := &faultyReader{data: data, failAt: -1, c: c, dataEOF: src.Bool(1, 3, "data_with_eof")}
 	for i := 0; i < src.Int(6, "nchunks"); i++ {
 		fr.chunks = append(fr.chunks, []int{0, 1, 100, 4096, 8192}[src.Int(5, "chunk")])
 	}
